@@ -31,12 +31,31 @@ type ReusableWorkflowMetadataInput struct {
 	Type ExprType
 }
 
+// reusableWorkflowRequired is a value of "required" field of inputs and secrets. The field can be
+// a ${{ }} expression. The value is not known statically in that case, so it is treated as false
+// like LocalReusableWorkflowCache.WriteWorkflowCallEvent does.
+type reusableWorkflowRequired bool
+
+// UnmarshalYAML implements yaml.Unmarshaler.
+func (r *reusableWorkflowRequired) UnmarshalYAML(n *yaml.Node) error {
+	if n.Kind == yaml.ScalarNode && n.Tag == "!!str" && isExprAssigned(n.Value) {
+		*r = false
+		return nil
+	}
+	var b bool
+	if err := n.Decode(&b); err != nil {
+		return err
+	}
+	*r = reusableWorkflowRequired(b)
+	return nil
+}
+
 // UnmarshalYAML implements yaml.Unmarshaler.
 func (input *ReusableWorkflowMetadataInput) UnmarshalYAML(n *yaml.Node) error {
 	type metadata struct {
-		Required bool    `yaml:"required"`
-		Default  *string `yaml:"default"`
-		Type     string  `yaml:"type"`
+		Required reusableWorkflowRequired `yaml:"required"`
+		Default  *string                  `yaml:"default"`
+		Type     string                   `yaml:"type"`
 	}
 
 	var md metadata
@@ -44,7 +63,7 @@ func (input *ReusableWorkflowMetadataInput) UnmarshalYAML(n *yaml.Node) error {
 		return err
 	}
 
-	input.Required = md.Required && md.Default == nil
+	input.Required = bool(md.Required) && md.Default == nil
 	switch md.Type {
 	case "boolean":
 		input.Type = BoolType{}
@@ -112,10 +131,13 @@ func (secrets *ReusableWorkflowMetadataSecrets) UnmarshalYAML(n *yaml.Node) erro
 	for i := 0; i < len(n.Content); i += 2 {
 		k, v := n.Content[i], n.Content[i+1]
 
-		var s ReusableWorkflowMetadataSecret
-		if err := v.Decode(&s); err != nil {
+		var m struct {
+			Required reusableWorkflowRequired `yaml:"required"`
+		}
+		if err := v.Decode(&m); err != nil {
 			return err
 		}
+		s := ReusableWorkflowMetadataSecret{Required: bool(m.Required)}
 		s.Name = k.Value
 
 		md[strings.ToLower(k.Value)] = &s
